@@ -546,38 +546,52 @@ def run (sem : Sem σ δ) (s : RState σ δ) : List Op → RState σ δ
 /-! ## The resource thread (`scheduler.rs`, `run_resource_loop`) -/
 
 /-- One iteration of `run_resource_loop` after its prologue (stop flag, commands, restart signal,
-pause), without a simulation controller: `set_current_time(now)`, `execute_cycle()`, the error
-branch (policy `restart` ⇒ warm restart and `continue`, otherwise `ResourceState::Faulted`,
-`last_error` and `break`), then the watchdog branch (`wdEnabled`, and `over` = the wall-clock
-duration of the cycle exceeded the timeout: action `restart` ⇒ warm restart, otherwise
-`watchdog_timeout()`, `Faulted`, `break`).  Result: new state, events, `some e` iff the thread
-ended in `Faulted` with `last_error = e`.  `restart` is assumed to succeed. -/
-def runnerIter (sem : Sem σ δ) (s : RState σ δ) (t : Int) (wdEnabled over : Bool) : PRes σ δ :=
+pause): `set_current_time(now)`, `execute_cycle()`, then — only if the cycle succeeded —
+`simulation.apply_post_cycle(now, &runtime)` whose result is `post` (`none` = `Ok` or no simulation
+controller), then the error branch (policy `restart` ⇒ warm restart and `continue`, otherwise
+`ResourceState::Faulted`, `last_error` and `break`), then the watchdog branch (`wdEnabled`, and
+`over` = the wall-clock duration of the cycle exceeded the timeout: action `restart` ⇒ warm
+restart, otherwise `watchdog_timeout()`, `Faulted`, `break`).
+Result: new state, events, `some e` iff the thread ended in `Faulted` with `last_error = e`.
+`restart` is assumed to succeed.
+
+NOTE (finding C08-runner-post-cycle): an error of `apply_post_cycle` takes the error branch
+WITHOUT `apply_fault` — `apply_post_cycle` only has `&Runtime`, so nobody latches the fault or
+applies the safe state.  The model follows the code. -/
+def runnerIter (sem : Sem σ δ) (s : RState σ δ) (t : Int) (wdEnabled over : Bool) (post : Option Err) :
+    PRes σ δ :=
   let r := executeCycle sem { s with now := t }
   match r.err with
   | some e =>
     if r.st.policy = .restart then { st := (step sem r.st (.restart .warm)).st, evs := r.evs, err := none }
     else { st := r.st, evs := r.evs, err := some e }
   | none =>
-    if wdEnabled && over then
-      if r.st.wdAction = .restart then
+    match post with
+    | some e =>
+      if r.st.policy = .restart then
         { st := (step sem r.st (.restart .warm)).st, evs := r.evs, err := none }
-      else
-        let f := applyFault sem r.st .watchdogTimeout (FaultDecision.fromWatchdog r.st.wdAction)
-        { st := f.st, evs := r.evs ++ f.evs, err := some .watchdogTimeout }
-    else { st := r.st, evs := r.evs, err := none }
+      else { st := r.st, evs := r.evs, err := some e }
+    | none =>
+      if wdEnabled && over then
+        if r.st.wdAction = .restart then
+          { st := (step sem r.st (.restart .warm)).st, evs := r.evs, err := none }
+        else
+          let f := applyFault sem r.st .watchdogTimeout (FaultDecision.fromWatchdog r.st.wdAction)
+          { st := f.st, evs := r.evs ++ f.evs, err := some .watchdogTimeout }
+      else { st := r.st, evs := r.evs, err := none }
 
 /-- At most `n` iterations of the loop with a clock that advances by `interval` per iteration;
-stops at the first iteration that ends the thread. -/
-def runnerLoop (sem : Sem σ δ) (interval : Int) (wdEnabled over : Bool) :
+stops at the first iteration that ends the thread.  `posts k` is the result of
+`apply_post_cycle` in the iteration that has `k` iterations left after it. -/
+def runnerLoop (sem : Sem σ δ) (interval : Int) (wdEnabled over : Bool) (posts : Nat → Option Err) :
     Nat → RState σ δ → Int → PRes σ δ
   | 0, s, _ => { st := s, evs := [], err := none }
   | n + 1, s, t =>
-    let r := runnerIter sem s t wdEnabled over
+    let r := runnerIter sem s t wdEnabled over (posts n)
     match r.err with
     | some _ => r
     | none =>
-      let r2 := runnerLoop sem interval wdEnabled over n r.st (t + interval)
+      let r2 := runnerLoop sem interval wdEnabled over posts n r.st (t + interval)
       { st := r2.st, evs := r.evs ++ r2.evs, err := r2.err }
 
 /-! ## Concrete instantiation used by the correspondence run -/
